@@ -199,6 +199,18 @@ PROG += [
      "import typing\ndef f(entry, keywords: typing.Iterable[str]):\n    keywords = tuple(keywords)\n    new = replace(entry, keywords=keywords)\n    raw = ' '.join(keywords)\n    return new, raw\n"),
 ]
 
+def _fi_all(fn):
+    def run_(src):
+        P, mi = _mini(src)
+        return [x for f in mi.funcs.values() for x in fn(P, f)]
+    return run_
+
+
+PROG += [
+    (_fi_all(lambda P, f: iterreuse.findings(P, f)), "def g(first, rest):\n    def f(arg, *others):\n        if not others:\n            yield from arg\n            return\n        tails = f(*others)\n        for node in arg:\n            for node2 in tails:\n                yield node + node2\n    return list(f(first, *rest))\n",
+     "def g(first, rest):\n    def f(arg, *others):\n        if not others:\n            yield from arg\n            return\n        for node in arg:\n            for node2 in f(*others):\n                yield node + node2\n    return list(f(first, *rest))\n"),
+]
+
 FN += [
     (lints.quantity_or_default, "import time\ndef f(t, fsobj):\n    t.mtime = fsobj.mtime or time.time()\n", "import time\ndef f(t, fsobj):\n    t.mtime = fsobj.mtime if fsobj.mtime is not None else time.time()\n"),
 ]
